@@ -41,6 +41,11 @@ fn main() {
             std::process::exit(2);
         }
     };
+    if args.replay.is_some() {
+        let code = args.replay_verdict(&rep);
+        fbrv::env::cleanup_scratch();
+        std::process::exit(code);
+    }
     rep.finish();
     fbrv::env::cleanup_scratch();
 }
